@@ -208,6 +208,9 @@ def scalars(cls, key, pattern, skip=()):
 
 
 # ----------------------------------------------------------------------------- world -> real objects
+GIVEN_PATHS = {}
+
+
 def build_world(case, audio_root: Path):
     """Returns (collection object, {uuid/tagkey -> model id}, [recordings])."""
     pat = case.get("pattern", "max")
@@ -243,7 +246,11 @@ def build_world(case, audio_root: Path):
                     "outside_prefix": Path(str(audio_root) + "_backup"),   # a sibling whose name merely starts like the directory
                     # a sibling whose name differs from the directory's only by letter case (another directory on a POSIX system)
                     "outside_case": audio_root.parent / audio_root.name.swapcase()}[place]
-            p = base.joinpath(*case.get("dir", [])) / (i + "_" + case.get("file", "rec.wav"))
+            # same_path: every recording of the collection describes the SAME file (distinct uuids, one path) -- e.g. a direct and
+            # a time-expanded description of one file; decided by the content of the case unless the case says so
+            same = case.get("same_path", _h(case.get("ctype"), ",".join(sorted(map(str, case.get("sw", [])))), case.get("file")) % 4 == 0)
+            p = base.joinpath(*case.get("dir", [])) / (("shared" if same else i) + "_" + case.get("file", "rec.wav"))
+            GIVEN_PATHS[str(u)] = p          # the path as HANDED to the constructor (what "unchanged" refers to)
             kw = scalars(data.Recording, i, pat, skip=("path", "tags", "notes", "owners"))
             if "hash" in kw:
                 kw["hash"] = "0123abcd-same-content"      # distinct recordings (uuid, path) holding byte-identical files share their content hash
@@ -549,6 +556,8 @@ def run_paths(case, workdir: Path):
         os.chdir(tmp)
         rel = case.get("akind", "abs") == "rel"
         A = Path("audio dir A") if rel else tmp / "audio dir A"
+        if rel and (case.get("dir") or [""])[0] == "~":
+            A = Path(".")        # the recordings are given as "~/x/<file>": a relative path whose first component is a tilde
         bk = case.get("bkind", "abs")
         first = (case.get("dir") or ["audio dir A"])[0]
         B = {"abs": tmp / "moved" / "audio B", "rel": Path("moved") / "audio B", "rel_first": Path(first)}[bk]
@@ -564,7 +573,7 @@ def run_paths(case, workdir: Path):
             lkw["type"] = case["ctype"]
         saved, _ = outcome_of(lambda: io.save(root, f, audio_dir=adir, **skw))
         out = {"saved": saved, "file_exists": f.exists(), "loaded": "", "loadedN": "", "A": comps(A), "B": comps(B), "recs": []}
-        table = {str(r.uuid): {"id": rev[str(r.uuid)], "orig": comps(r.path), "stored": [""], "atB": [""], "atNone": [""], "count": 0}
+        table = {str(r.uuid): {"id": rev[str(r.uuid)], "orig": comps(GIVEN_PATHS.get(str(r.uuid), r.path)), "stored": [""], "atB": [""], "atNone": [""], "count": 0}
                  for r in recs}
         if saved == "":
             d = json.loads(f.read_text())["data"]
@@ -769,8 +778,9 @@ def random_world(rng, ctype, dups=None):
     return {"ctype": ctype, "objs": [d for d in O if d["id"] in seen], "roots": roots, "sw": ["random"],
             "pattern": rng.choice(["min", "max", "alt"]), "audio": rng.choice(["none", "str", "path"]),
             "cycles": rng.choice([1, 2, 3]), "place": "inside",
-            "dir": rng.choice([[], ["d1"], ["sub dir", "ünï"], ["site_a", "..", "shared"]]),
-            "file": rng.choice(["a.wav", "with space.wav", "üñí ©.wav"])}
+            "dir": rng.choice([[], ["d1"], ["sub dir", "ünï"], ["site_a", "..", "shared"], ["field\\notes", ".cache"]]),
+            "file": rng.choice(["a.wav", "with space.wav", "üñí ©.wav", "take\\002.wav", "~lock.wav"]),
+            "same_path": rng.random() < 0.25}
 
 
 def random_worlds(rng, n):
